@@ -519,4 +519,199 @@ theorem spec_max_exact {e : Exp (Ext K)} {rs : List (Exp (Ext K))} {s sL : St (E
     exact ⟨ρ2, fun y hy => by rw [hag2 y (L.scopeMono (hscV y hy)), hag1 y (hscV y hy), hag0 y hy],
       hdF2, hqF2, by rw [hcv, hv2]⟩
 
+/-! ### unfolding `linearize_extreme` for `max` -/
+
+theorem flatMap_singleton_map {β γ : Type} (f : β → γ) (xs : List β) : xs.flatMap (fun x => [f x]) = xs.map f := by
+  induction xs with
+  | nil => rfl
+  | cons x xs ih => simp [List.flatMap_cons, ih]
+
+/-- the branches of `linearize_extreme` for `max`, once more than one operand is retained. -/
+theorem linExtreme_max_gadget {es : List (Exp (Ext K))} {req : Req} {s : St (Ext K)} {r : Ctx (Ext K) × St (Ext K)}
+    (h : linExtreme .max es req s = .ok r)
+    (hn1 : ((retainedFlags .max (boundsOfList s.bounds es)).filter id).length ≠ 1) :
+    let flags := retainedFlags .max (boundsOfList s.bounds es)
+    let rs := selectFlagged es flags
+    let rbs := selectFlagged (boundsOfList s.bounds es) flags
+    let eb := boundsOf s.bounds (.max rs)
+    es ≠ [] ∧ (flags.filter id).length ≠ 0 ∧
+    ∃ (v : String) (ops : List (Exp (Ext K))) (sL : St (Ext K)),
+      v ∉ s.domain.map (·.name) ∧
+      ((req = .lower ∧ linList rs .lower (maxState1 s v eb) = .ok (ops, sL) ∧
+          r = (Ctx.fromVar v Arith.one, pushAll sL (ops.map fun o => mkC (.var v) .ge o))) ∨
+       (req ≠ .lower ∧ Arith.isFinite eb.upper = true ∧ (∀ b ∈ rbs, Arith.isFinite b.lower = true) ∧
+          linList rs .exact (maxState1 s v eb) = .ok (ops, sL) ∧
+          ∃ selNames : List String, selNames.length = ops.length ∧
+            (∀ n ∈ selNames, n ∉ sL.domain.map (·.name)) ∧ selNames.Nodup ∧
+            r = (Ctx.fromVar v Arith.one, maxState2 sL v eb.upper ops rbs selNames))) := by
+  intro flags rs rbs eb
+  rw [linExtreme.eq_def] at h
+  simp only [ite_ok, fail_ok, bind_ok, get_ok, set_ok, declareVariable_ok, pure_ok, and_false, false_or] at h
+  obtain ⟨hne, s0, s0', h0, h⟩ := h
+  cases h0
+  obtain ⟨hn0, h⟩ := h
+  have hne' : es ≠ [] := by intro h'; apply hne; simp [h']
+  have hn0' : (flags.filter id).length ≠ 0 := by simpa using hn0
+  rcases h with ⟨hone, _⟩ | ⟨_, h⟩
+  · exact absurd (by simpa using hone) hn1
+  · obtain ⟨hfin, u1, s1, hs1, u2, s2, ⟨hfresh, hs2⟩, ops, sL, hlin, hrest⟩ := h
+    cases hs1; cases hs2
+    generalize hv : (toString "$" ++ toString ExtKind.max.name ++ toString "_" ++ toString s.maxCount) = v at *
+    refine ⟨hne', hn0', v, ops, sL, hfresh, ?_⟩
+    rw [linFlagged_eq] at hlin
+    rcases hrest with ⟨hos, u3, s3, hloop, hr⟩ | ⟨hos, u3, sD, hdecl, u4, sP, hpush, u5, s5, hsum, hr⟩
+    · left
+      have hreq : req = .lower := by simpa using hos
+      subst hreq
+      simp only [beq_self_eq_true, Bool.and_self, Bool.true_or, if_true] at hlin
+      have hloop' := (forIn_ok (fun o => addConstraint (mkC (.var v) .ge o)) _ (by intro x u; rfl) _ _ _).mp hloop
+      rw [seqOK_push _ (fun o => [mkC (.var v) .ge o]) (fun x s => addConstraint_eq _ s)] at hloop'
+      simp only [flatMap_singleton_map] at hloop'
+      subst hloop'
+      exact ⟨rfl, hlin, hr⟩
+    · right
+      have hreq : req ≠ .lower := by
+        intro hreq; apply hos; simp [hreq]
+      have hos' : (ExtKind.max == ExtKind.max && req == Req.lower || ExtKind.max == ExtKind.min && req == Req.higher) = false := by
+        simpa using hos
+      simp only [hos', Bool.false_eq_true, if_false] at hlin
+      simp only [hos', Bool.not_false, Bool.true_and, Bool.not_eq_true', Bool.not_eq_false, Bool.and_eq_true,
+        List.all_eq_true] at hfin
+      have hdecl' := (forIn_ok (fun sn => declareVariable sn (VarType.bool : VarType (Ext K))) _
+        (by intro x u; rfl) _ _ _).mp hdecl
+      obtain ⟨hsD, hfreshSel, hnd⟩ := (seqOK_declare _ _ _ _).mp hdecl'
+      simp only at hsD
+      subst hsD
+      have hpush' := (forIn_ok (fun (x : (Exp (Ext K) × Lin.Bounds (Ext K)) × Exp (Ext K)) => do
+          addConstraint (mkC (.var v) .ge x.1.1)
+          addConstraint (mkC (.var v) .le (addExp x.1.1 (mulExp (.num (Arith.sub eb.upper x.1.2.lower))
+            (subExp (.num Arith.one) x.2))))) _ (by intro x u; simp [bind_assoc]; rfl) _ _ _).mp hpush
+      rw [seqOK_push _ (maxPair v eb.upper) (by
+        intro x s
+        simp only [bind_ok, maxPair]
+        exact ⟨⟨⟩, _, addConstraint_eq _ _, by rw [addConstraint_eq, pushAll_append]; rfl⟩)] at hpush'
+      simp only at hpush'
+      subst hpush'
+      rw [addConstraint_ok] at hsum
+      cases hsum
+      exact ⟨hreq, hfin.1, hfin.2, hlin, _, by simp, hfreshSel, hnd, hr⟩
+
+/-! ### the specification of `max{…}` -/
+
+theorem eval_max_some {ρ : String → K} {es : List (Exp (Ext K))} {m : K} (h : eval ρ (.max es) = some m) :
+    ∃ x xs, evalList ρ es = some (x :: xs) ∧ m = xs.foldl max x := by
+  rw [eval] at h
+  cases hl : evalList ρ es with
+  | none => simp [hl] at h
+  | some vs =>
+    cases vs with
+    | nil => simp [hl] at h
+    | cons x xs =>
+      simp only [hl, Option.some.injEq] at h
+      exact ⟨x, xs, rfl, by rw [← h, foldl_kmax_eq]⟩
+
+theorem eval_max_of_list {ρ : String → K} {es : List (Exp (Ext K))} {x : K} {xs : List K}
+    (h : evalList ρ es = some (x :: xs)) : eval ρ (.max es) = some (xs.foldl max x) := by
+  rw [eval]; simp only [h, foldl_kmax_eq]
+
+/-- pruning, semantically: the value of `max es` is the maximum over the retained operands, whose
+bounds enclose them. -/
+theorem max_hval (hbo : BoundsOracle K) {es : List (Exp (Ext K))} {bm : BoundsMap (Ext K)} {ρ : String → K} {m : K}
+    (hbox : BoxOK ρ bm) (hm : eval ρ (.max es) = some m) :
+    ∃ x xs, evalList ρ (selectFlagged es (retainedFlags .max (boundsOfList bm es))) = some (x :: xs) ∧
+      m = xs.foldl max x ∧
+      Encl (boundsOf bm (.max (selectFlagged es (retainedFlags .max (boundsOfList bm es))))) m ∧
+      List.Forall₂ Encl (selectFlagged (boundsOfList bm es) (retainedFlags .max (boundsOfList bm es))) (x :: xs) := by
+  obtain ⟨y, ys, hvs, rfl⟩ := eval_max_some hm
+  have hF := evalList_eq_some_iff.mp hvs
+  have hE : List.Forall₂ Encl (boundsOfList bm es) (y :: ys) := by
+    rw [boundsOfList_eq_map, List.forall₂_map_left_iff]
+    exact hF.imp (fun _ _ he => hbo bm ρ _ _ hbox he)
+  obtain ⟨x, xs, hsel, hmax⟩ := max_pruned hE
+  have hrs := evalList_selectFlagged (retainedFlags .max (boundsOfList bm es)) hvs
+  rw [hsel] at hrs
+  refine ⟨x, xs, hrs, hmax.symm, ?_, ?_⟩
+  · rw [← hmax]
+    exact hbo bm ρ _ _ hbox (eval_max_of_list hrs)
+  · rw [← hsel]; exact forall₂_selectFlagged _ hE
+
+theorem DefinedE.max_mem {es : List (Exp (Ext K))} (h : DefinedE (.max es)) : ∀ e ∈ es, DefinedE e := by
+  intro e he ρ
+  obtain ⟨m, hm⟩ := h ρ
+  obtain ⟨x, xs, hvs, _⟩ := eval_max_some hm
+  have hF := evalList_eq_some_iff.mp hvs
+  obtain ⟨i, hi, rfl⟩ := List.mem_iff_getElem.mp he
+  obtain ⟨hlen, hget⟩ := List.forall₂_iff_get.mp hF
+  exact ⟨_, hget i hi (by omega)⟩
+
+theorem spec_max (hbo : BoundsOracle K) {es : List (Exp (Ext K))} (ih : ∀ e ∈ es, SpecHolds Src e) :
+    SpecHolds Src (.max es) := by
+  intro req s c s' hpre h
+  rw [linExp] at h
+  have hvars : ∀ e ∈ es, ∀ x ∈ varsOf e, inScope s.domain x := fun e he x hx =>
+    hpre.vars x (by simp only [varsOf]; exact mem_varsOfList.mpr ⟨e, he, hx⟩)
+  have hdef : ∀ e ∈ es, DefinedE e := hpre.defined.max_mem
+  set flags := retainedFlags .max (boundsOfList s.bounds es) with hflags
+  have hsub : ∀ r ∈ selectFlagged es flags, r ∈ es := fun r hr => selectFlagged_subset hr
+  have hval : ∀ (ρ : String → K) m, DomSat ρ s.domain → eval ρ (.max es) = some m →
+      ∃ x xs, evalList ρ (selectFlagged es flags) = some (x :: xs) ∧ m = xs.foldl max x ∧
+        Encl (boundsOf s.bounds (.max (selectFlagged es flags))) m ∧
+        List.Forall₂ Encl (selectFlagged (boundsOfList s.bounds es) flags) (x :: xs) :=
+    fun ρ m hd hm => max_hval hbo (hpre.inv.box ρ hd) hm
+  have hlenflags : es.length = flags.length := by
+    rw [hflags, retainedFlags_length, boundsOfList_eq_map, List.length_map]
+  by_cases hn1 : (flags.filter id).length = 1
+  · -- a single retained operand: it is linearized with the caller's requirement
+    rw [linExtreme.eq_def] at h
+    simp only [ite_ok, fail_ok, bind_ok, get_ok, and_false, false_or] at h
+    obtain ⟨_, s0, s0', h0, h⟩ := h
+    cases h0
+    obtain ⟨_, h⟩ := h
+    rcases h with ⟨_, h⟩ | ⟨hne1, _⟩
+    · rw [linFirstFlagged_eq] at h
+      have hlen := selectFlagged_length es flags hlenflags
+      rw [hn1] at hlen
+      cases hrs : selectFlagged es flags with
+      | nil => rw [hrs] at hlen; simp at hlen
+      | cons e1 rest =>
+        rw [hrs] at hlen
+        have hrest : rest = [] := by
+          cases rest with
+          | nil => rfl
+          | cons _ _ => simp at hlen
+        subst hrest
+        simp only [← hflags, hrs] at h
+        have he1 : e1 ∈ es := hsub e1 (by rw [hrs]; simp)
+        have A := ih e1 he1 req s c s' ⟨hpre.inv, hvars e1 he1, hdef e1 he1⟩ h
+        refine Spec.map1 id A A.cok (fun _ hx => hx) (fun _ => rfl) ?_
+        intro ρ m hd hm
+        obtain ⟨x, xs, hvs, rfl, _, _⟩ := hval ρ m hd hm
+        rw [hrs] at hvs
+        obtain ⟨v1, ws, hv1, hws, hcons⟩ := evalList_cons_some hvs
+        simp [evalList] at hws
+        subst hws
+        simp only [List.cons.injEq] at hcons
+        obtain ⟨rfl, rfl⟩ := hcons
+        exact ⟨x, hv1, fun a1 r1 => by simpa using r1, by simp⟩
+    · exact absurd (by simpa using hn1) hne1
+  · obtain ⟨_, _, v, ops, sL, hfresh, hcase⟩ := linExtreme_max_gadget h hn1
+    have hall : ∀ r ∈ selectFlagged es flags, SpecHolds Src r := fun r hr => ih r (hsub r hr)
+    have hvars' : ∀ r ∈ selectFlagged es flags, ∀ x ∈ varsOf r, inScope s.domain x :=
+      fun r hr => hvars r (hsub r hr)
+    have hdef' : ∀ r ∈ selectFlagged es flags, DefinedE r := fun r hr => hdef r (hsub r hr)
+    rcases hcase with ⟨rfl, hlin, hr⟩ | ⟨hreq, hfU, hfL, hlin, selNames, hsl, hsf, hsn, hr⟩
+    · simp only [Prod.mk.injEq] at hr
+      obtain ⟨rfl, rfl⟩ := hr
+      exact spec_max_oneSided hall hpre.inv hvars' hdef' hpre.vars
+        (fun ρ m hd hm => by
+          obtain ⟨x, xs, h1, h2, h3, _⟩ := hval ρ m hd hm
+          exact ⟨x, xs, h1, h2, h3⟩) hfresh hlin
+    · simp only [Prod.mk.injEq] at hr
+      obtain ⟨rfl, rfl⟩ := hr
+      refine spec_max_exact req hall hpre.inv hvars' hdef' hval ((isFinite_iff _).mp hfU)
+        (fun b hb => (isFinite_iff _).mp (hfL b hb)) ?_ hfresh hlin hsl hsf hsn
+      have hl2 : (boundsOfList s.bounds es).length = flags.length := by
+        rw [← hlenflags, boundsOfList_eq_map, List.length_map]
+      rw [selectFlagged_length _ _ hl2, selectFlagged_length _ _ hlenflags]
+
 end Rooc.LinP
